@@ -878,6 +878,102 @@ pub fn t_decode_bytes(data: &[u8], ctx: &mut Ctx) -> CheckResult {
 }
 
 // ---------------------------------------------------------------------------------------------
+// Target 3b: the contextual decoders (`DeserialCtx`, i.e. fields with `#[concordium(size_length = N)]`)
+// on hostile bytes: total, bounded pre-allocation, and whatever is accepted round-trips.
+
+fn dec_ctx<T: Val + SerialCtx + DeserialCtx>(u: &mut Unstructured, ctx: &mut Ctx) -> CheckResult {
+    let name = format!("ctx:{}", T::name());
+    let sl = *gen::choose(u, &[SizeLength::U8, SizeLength::U16, SizeLength::U32, SizeLength::U64, SizeLength::U32, SizeLength::U64]);
+    let ordered = gen::boolean(u);
+    ctx.class(&format!("type:{name}"));
+    ctx.class(&format!("size-length:{sl:?}"));
+    let (mut input, how): (Vec<u8>, &'static str) = if gen::ratio(u, 1, 4) {
+        (gen::short_bytes(u, 96), "random")
+    } else {
+        let v = T::gen(u);
+        let mut b = Vec::new();
+        if v.serial_ctx(sl, &mut b).is_err() {
+            ctx.class("ctx-length-does-not-fit");
+            return Ok(());
+        }
+        let how = mutate(u, &mut b);
+        (b, how)
+    };
+    // a declared length far beyond the input (all widths): the prefix is overwritten
+    let how = if gen::ratio(u, 1, 3) {
+        let width = match sl {
+            SizeLength::U8 => 1,
+            SizeLength::U16 => 2,
+            SizeLength::U32 => 4,
+            SizeLength::U64 => 8,
+        };
+        let big: u64 = match gen::byte(u) % 6 {
+            0 => u64::MAX,
+            1 => 1 << 63,
+            2 => (1 << 63) - 1,
+            3 => 0xffff_ffff,
+            4 => 1 << 26,
+            _ => gen::u32v(u) as u64 * 4099,
+        };
+        let le = big.to_le_bytes();
+        if input.len() < width {
+            input.resize(width, 0);
+        }
+        input[..width].copy_from_slice(&le[..width]);
+        "huge-declared-length"
+    } else {
+        how
+    };
+    ctx.class(&format!("input:{how}"));
+    ctx.describe(|| format!("deserial_ctx {name} ({sl:?}, ordered={ordered}) from {} ({how})", gen::hex(&input)));
+    let ((res, consumed), rep) = vcore::alloc::measure(|| {
+        let mut cur = cc::Cursor::new(&input[..]);
+        let r = T::deserial_ctx(sl, ordered, &mut cur);
+        (r, cur.offset)
+    });
+    let bound = ALLOC_SLOPE * input.len() + ALLOC_CONST;
+    if rep.peak > bound {
+        return Err(Violation::new("alloc-bound", format!("deserial_ctx of {name} ({sl:?}) from {} bytes ({}) had {} live heap bytes at peak (largest single request {}), bound {}", input.len(), hexs(&input), rep.peak, rep.max_single, bound))
+            .with_signature(format!("alloc-bound:{name}")));
+    }
+    vensure!(consumed <= input.len(), "cursor-bounds", "{name}: cursor offset {consumed} beyond input length {}", input.len());
+    ctx.sample(|| format!("{name} {sl:?} <- {} ({how}): {}", hexs(&input), match &res { Ok(v) => format!("Ok({})", dbg(v)), Err(_) => "Err".into() }));
+    match res {
+        Ok(v) => {
+            ctx.class("decoded-ok");
+            if how != "valid" {
+                ctx.class("nontrivial");
+                ctx.nontrivial(&(&name, &input));
+            }
+            let mut re = Vec::new();
+            vensure!(v.serial_ctx(sl, &mut re).is_ok(), "ctx-roundtrip-decoded", "{name}: a value decoded under {sl:?} cannot be encoded under it");
+            let mut cur = cc::Cursor::new(&re[..]);
+            let back = T::deserial_ctx(sl, ordered, &mut cur);
+            vensure!(matches!(&back, Ok(b) if *b == v), "ctx-roundtrip-decoded", "{name}: value decoded from {} re-encodes to {} which decodes to {}", hexs(&input), hexs(&re), dbg(&back));
+        }
+        Err(_) => {
+            ctx.class("decoded-err");
+            if how == "huge-declared-length" {
+                ctx.class("nontrivial");
+                ctx.nontrivial(&(&name, &input));
+            }
+        }
+    }
+    Ok(())
+}
+
+pub fn t_decode_ctx(data: &[u8], ctx: &mut Ctx) -> CheckResult {
+    let mut u = Unstructured::new(data);
+    let fns: &[fn(&mut Unstructured, &mut Ctx) -> CheckResult] = &[
+        dec_ctx::<String>, dec_ctx::<String>, dec_ctx::<Vec<u8>>, dec_ctx::<Vec<u16>>, dec_ctx::<Vec<String>>, dec_ctx::<Vec<Option<u32>>>,
+        dec_ctx::<BTreeMap<u8, u8>>, dec_ctx::<BTreeMap<u16, String>>, dec_ctx::<BTreeSet<u16>>, dec_ctx::<BTreeSet<String>>,
+        dec_ctx::<cc::HashMap<u32, String>>, dec_ctx::<cc::HashSet<u64>>,
+    ];
+    let i = gen::idx(&mut u, fns.len());
+    (fns[i])(&mut u, ctx)
+}
+
+// ---------------------------------------------------------------------------------------------
 // Target 4: Cursor read / seek / write against a plain model
 
 pub fn t_cursor(data: &[u8], ctx: &mut Ctx) -> CheckResult {
